@@ -1160,3 +1160,146 @@ func ruleX4b(c *Ctx) {
 	})
 	R.Check(bad == "" && n >= 1, "X4b", at, p.Position(f.Pos()), "the only early return is `if err == nil`", "Collector.Add returns early under `"+bad+"`: a non-nil error (and everything joined with it) is dropped from the aggregate, so Wait/Resolve report nil or an incomplete error")
 }
+
+// ---------------------------------------------------------------- X11 / X12  (ers, internal)
+
+func ruleX11(c *Ctx) {
+	R := c.R
+	p := c.P
+	R.Rule("X11", "ers.Error values (compared by their text) are made from constants or from a string the caller passed verbatim, never from text the library composes at run time (fmt.Sprint/Sprintf/…): an annotation equal to a sentinel's text would satisfy errors.Is for a sentinel that was never supplied", 0)
+	n := 0
+	for _, f := range p.FuncsIn("ers", "erc", "fun", "internal", "itertool", "pubsub", "srv", "dt", "adt", "ft") {
+		if f.Root().Name == "ers.New" {
+			continue
+		}
+		info := f.Info()
+		walkNoLit(f.Body, func(x ast.Node) bool {
+			call, ok := x.(*ast.CallExpr)
+			if !ok || len(call.Args) != 1 {
+				return true
+			}
+			isNew := callName(info, call) == "ers.New"
+			isConv := false
+			if tv, ok := info.Types[call.Fun]; ok && tv.IsType() && typeIs(tv.Type, "ers", "Error") {
+				isConv = true
+			}
+			if !isNew && !isConv {
+				return true
+			}
+			if tv, ok := info.Types[call.Args[0]]; ok && tv.Value != nil {
+				return true // constant text
+			}
+			// Error(e) applied to something that already is an ers.Error is a no-op conversion
+			if tv, ok := info.Types[call.Args[0]]; ok && typeIs(tv.Type, "ers", "Error") {
+				return true
+			}
+			// a string the caller passed in verbatim (When, ParsePanic, NewInvariantViolation …) is the caller's
+			// own choice of text; the rule is about text the library composes (fmt.Sprint/Sprintf/…)
+			fc, isCall := ast.Unparen(resolveLocal(f, call.Args[0])).(*ast.CallExpr)
+			if !isCall {
+				return true
+			}
+			if cn := callName(info, fc); !(strings.HasPrefix(cn, "fmt.") || strings.HasPrefix(cn, "strings.") || strings.HasPrefix(cn, "strconv.")) {
+				return true
+			}
+			n++
+			R.Fail("X11", fmt.Sprintf("%s/dynamic-ers.Error#%d", f.Name, n), p.Position(call.Pos()),
+				fmt.Sprintf("%s builds an ers.Error from the run-time string %s: ers.Error compares by text, so errors.Is(result, sentinel) succeeds for every sentinel whose text happens to equal that string — an error that was never supplied is \"found\" (and IsTerminating / filters act on it)", f.Name, exprStr(call.Args[0])))
+			return true
+		})
+	}
+	if n == 0 {
+		R.OK("X11", "module/no-composed-ers.Error", "-", "no ers.Error in library code is made from composed text")
+	}
+}
+
+// ruleX12: internal.buffer hands sparse a scratch slice that shares no storage
+// with the operand's own slice.
+func ruleX12(c *Ctx) {
+	R := c.R
+	p := c.P
+	R.Rule("X12", "internal.buffer returns a scratch slice derived from its first parameter only; the slice an error handed out from Unwrap()/Unwind() (second parameter) is never re-sliced into the append target, so unwinding never rewrites the operand", 1)
+	f := p.FuncNamed("internal.buffer")
+	at := "internal.buffer/no-alias"
+	if f == nil {
+		R.Fail("X12", at, "-", "internal.buffer not found: the unwinding helper was restructured")
+		return
+	}
+	info := f.Info()
+	operand := paramObj(f, 1)
+	var rootOf func(e ast.Expr, depth int) types.Object
+	rootOf = func(e ast.Expr, depth int) types.Object {
+		e = ast.Unparen(e)
+		switch t := e.(type) {
+		case *ast.SliceExpr:
+			return rootOf(t.X, depth)
+		case *ast.Ident:
+			return info.Uses[t]
+		case *ast.CallExpr:
+			if len(t.Args) > 0 {
+				return rootOf(t.Args[0], depth)
+			}
+		}
+		return nil
+	}
+	bad := ""
+	// any assignment or return that makes the first result derive from the operand
+	tainted := map[types.Object]bool{operand: true}
+	walkNoLit(f.Body, func(x ast.Node) bool {
+		switch t := x.(type) {
+		case *ast.AssignStmt:
+			for i, l := range t.Lhs {
+				if i < len(t.Rhs) {
+					if id, ok := ast.Unparen(l).(*ast.Ident); ok {
+						o := info.Uses[id]
+						if o == nil {
+							o = info.Defs[id]
+						}
+						if o != nil && o != operand && tainted[rootOf(t.Rhs[i], 0)] {
+							tainted[o] = true
+						}
+					}
+				}
+			}
+		case *ast.ReturnStmt:
+			if len(t.Results) >= 1 && tainted[rootOf(t.Results[0], 0)] {
+				bad = exprStr(t.Results[0]) + " at " + p.Position(t.Pos())
+			}
+		}
+		return true
+	})
+	R.Check(bad == "", "X12", at, p.Position(f.Pos()), "the scratch result derives from the scratch parameter", "internal.buffer returns "+bad+" as the append target: sparse() then compacts the non-nil entries inside the operand's own slice, so a multi-error that hands out its slice is rewritten by Unwind and lists a constituent twice the next time it is unwound or joined")
+}
+
+// ---------------------------------------------------------------- L6c
+
+func ruleL6c(c *Ctx, pkgs map[string]bool) {
+	R := c.R
+	p := c.P
+	R.Rule("L6c", "a function literal that is sent over a channel (and therefore run by another goroutine) writes no variable of the sending function", 1)
+	n := 0
+	for _, f := range p.Funcs {
+		if !pkgs[shortPkg(f.Pkg.PkgPath)] {
+			continue
+		}
+		info := f.Info()
+		walkNoLit(f.Body, func(x ast.Node) bool {
+			ss, ok := x.(*ast.SendStmt)
+			if !ok {
+				return true
+			}
+			lit, ok := ast.Unparen(ss.Value).(*ast.FuncLit)
+			if !ok {
+				return true
+			}
+			n++
+			v := writesCaptured(info, lit, f.Root().Body.Pos())
+			R.Check(v == "", "L6c", fmt.Sprintf("%s/sent-closure#%d", f.Name, n), p.Position(lit.Pos()), "the closure only communicates through channels / its own locals",
+				fmt.Sprintf("%s sends a closure that assigns the sender's variable %s: the goroutine that receives and runs it writes %s while the sender may read it (e.g. after its context was cancelled) — a data race", f.Name, v, v))
+			return true
+		})
+	}
+	if n == 0 {
+		R.OK("L6c", "module/no-sent-closures", "-", "no function literal is sent over a channel")
+	}
+}
